@@ -76,6 +76,9 @@ structure St where
   dues : List Nat := []      -- instants at which a flush timer armed earlier comes due
   grp : List GItem := []     -- queued calls of the current group, in arrival order
   pending : Bool := false    -- scripted mode: a `Receive` is waiting; it is resumed after every operation
+  alts : List State := []    -- concurrent mode: the other states the groups so far may have ended in — interleavings that
+                             -- end in the same observable state can differ in what is not observable (carrier writes left
+                             -- until an injected failure, …); the next group may start from any of them
 
 def b01 (b : Bool) : String := if b then "1" else "0"
 
@@ -220,6 +223,18 @@ def search (C : Cfg) (seen now delay : Nat) (t : Snap) (rf : Bool) : Nat → Std
       if vis.contains k then search C seen now delay t rf fuel vis stack
       else search C seen now delay t rf fuel (vis.insert k) (children C seen now delay t rf n ++ stack)
 
+/-- every end state some interleaving reaches (distinct by `Node.key`, at most 24 of them), not just the first -/
+def searchAll (C : Cfg) (seen now delay : Nat) (t : Snap) (rf : Bool) :
+    Nat → Std.HashSet (List Nat) → List Node → List Node → List Node
+  | 0, _, _, acc => acc
+  | _, _, [], acc => acc
+  | fuel + 1, vis, n :: stack, acc =>
+    let k := n.key
+    if vis.contains k then searchAll C seen now delay t rf fuel vis stack acc
+    else if n.qs.all (·.isEmpty) && matchesSnap seen t n.s then
+      searchAll C seen now delay t rf fuel (vis.insert k) stack (if acc.length < 24 then acc ++ [n] else acc)
+    else searchAll C seen now delay t rf fuel (vis.insert k) (children C seen now delay t rf n ++ stack) acc
+
 /-- queue the calls per goroutine, keeping arrival order inside each -/
 def byGoroutine (items : List GItem) : List (List GItem) :=
   let gids := items.foldl (fun acc it => if acc.contains it.gid then acc else acc ++ [it.gid]) ([] : List Nat)
@@ -254,13 +269,13 @@ def handle (st : St) (toks : List String) : Option (St × String) :=
     let d ← d.toNat?
     let (st', out) := apply st (.setDelay (d == 0))
     some ({ st' with delayMs := d }, out)
-  | ["env", "peerdata", h] => do let bs ← pHx h; some ({ st with s := (step st.cfg st.s (.peerData bs)).1 }, "ok")
-  | ["env", "peerclose"] => some ({ st with s := (step st.cfg st.s .peerClose).1 }, "ok")
-  | ["env", "dexpire"] => some ({ st with s := (step st.cfg st.s .deadlineExpire).1 }, "ok")
+  | ["env", "peerdata", h] => do let bs ← pHx h; some ({ st with s := (step st.cfg st.s (.peerData bs)).1, alts := st.alts.map (fun a => (step st.cfg a (.peerData bs)).1) }, "ok")
+  | ["env", "peerclose"] => some ({ st with s := (step st.cfg st.s .peerClose).1, alts := st.alts.map (fun a => (step st.cfg a .peerClose).1) }, "ok")
+  | ["env", "dexpire"] => some ({ st with s := (step st.cfg st.s .deadlineExpire).1, alts := st.alts.map (fun a => (step st.cfg a .deadlineExpire).1) }, "ok")
   | ["env", "fail", k, n] => do
     let k ← pKind k; let n ← n.toNat?
-    some ({ st with s := (step st.cfg st.s (.carrierFail k n)).1 }, "ok")
-  | ["env", "rtimeout", b] => do let b ← pBool b; some ({ st with s := (step st.cfg st.s (.setReadTimeout b)).1 }, "ok")
+    some ({ st with s := (step st.cfg st.s (.carrierFail k n)).1, alts := st.alts.map (fun a => (step st.cfg a (.carrierFail k n)).1) }, "ok")
+  | ["env", "rtimeout", b] => do let b ← pBool b; some ({ st with s := (step st.cfg st.s (.setReadTimeout b)).1, alts := st.alts.map (fun a => (step st.cfg a (.setReadTimeout b)).1) }, "ok")
   | "g" :: gid :: rest => do
     let gid ← gid.toNat?
     let (op, obs) ← pGOp rest
@@ -270,17 +285,17 @@ def handle (st : St) (toks : List String) : Option (St × String) :=
     let now ← t.toNat?
     let sn ← pSnap snap
     let dues := st.dues.filter (· ≥ now)
-    let root : Node := { s := st.s, dues := dues, qs := byGoroutine st.grp }
+    let roots : List Node := (st.s :: st.alts).map (fun s0 => { s := s0, dues := dues, qs := byGoroutine st.grp })
     let rf := st.grp.any (fun it => match it.op, it.obs with | .recv, .err => true | _, _ => false)
-    match search st.cfg st.seen now st.delayMs sn rf 200000 {} [root] with
-    | some n =>
+    match searchAll st.cfg st.seen now st.delayMs sn rf 400000 {} roots [] with
+    | n :: more =>
       -- which callbacks are pending is not observable (a callback that lost the race against
       -- `Stop` clears `w.timer` while a newer timer is still running): any instant at which a send
       -- was accepted may have armed a timer
       let armed := st.grp.any (fun it => match it.op, it.obs with | .send _ _ _, .ok => true | _, _ => false)
       let dues' := if armed && st.delayMs > 0 then (now + st.delayMs) :: dues else dues
-      some ({ st with s := forget n.s, seen := 0, dues := dues', grp := [] }, "ok")
-    | none => some ({ st with grp := [] }, "reject " ++ suffix st.seen st.s)
+      some ({ st with s := forget n.s, alts := more.map (fun m => forget m.s), seen := 0, dues := dues', grp := [] }, "ok")
+    | [] => some ({ st with grp := [] }, "reject " ++ suffix st.seen st.s)
   | _ => do
     let (op, rest) ← pGOp toks
     if rest.isEmpty then some (apply st op.ev) else none
